@@ -3,10 +3,14 @@ import Vflow.Model.Base
 # Model of the mirror path (`vflow/ipfix_unix.go: mirrorIPFIX`, `vflow/sflow_unix.go: mirrorSFlow`,
 `mirror/ipv4.go`, `mirror/udp.go`) — IPv4 target branch
 
-The mirror worker (set-up, one loop iteration, a sequence of iterations on the reused buffers),
-statement by statement, after the `fix:` commit for F13
-(buffer sized for the headers; `SetAddrs` normalises the source with `To4`).  Every Go operation that
-can panic is an explicit check (`make` with a negative length, every slice expression).  Core Lean only.
+The mirror worker (set-up, one loop iteration, a sequence of iterations on the reused buffers) and the
+dispatcher in front of it, statement by statement, after the `fix:` commits for F13 (buffer sized for the
+headers; `SetAddrs` normalises the source with `To4`) and F25 (a failed `Send` is logged and the loop goes
+on with the next datagram; the dispatcher drops a datagram whose address family no worker serves).
+Every Go operation that can panic is an explicit check (`make` with a negative length, every slice
+expression).  `conn.Send` is a parameter `send : Bytes → Bool` (does the kernel take the packet?):
+the worker's behaviour is stated for every such function; `linkSend mtu` is the Linux raw-socket rule
+the correspondence runs against.  Core Lean only.
 
 Go value conventions: `max` (= `opts.IPFIXUDPSize` / `opts.SFlowUDPSize`) is a Go `int`, hence `Int`;
 `port` is taken as a `Nat` (the model applies `uint16(port)` = `% 65536`); `src`/`dst` are `net.IP`
@@ -158,18 +162,59 @@ def Worker.step (w : Worker) (max : Int) (dst src payload : Bytes) : Res (Worker
   let out ← slice packet 0 (ipHLen + 8 + pLen)
   .ok (⟨ipHdr, udpHdr, packet⟩, out)
 
-/-- the loop over a sequence of messages `(src, payload)`: what is sent for each -/
-def Worker.run (w : Worker) (max : Int) (dst : Bytes) : List (Bytes × Bytes) → Res (List Bytes)
+/-- `conn.Send` on a Linux raw socket with `IP_HDRINCL` over a path of MTU `mtu`: a packet longer than
+the MTU is refused with `EMSGSIZE` (such a socket never fragments), and so is anything longer than the
+65535 octets an IPv4 datagram can have -/
+def linkSend (mtu : Nat) (b : Bytes) : Bool := decide (b.length ≤ mtu ∧ b.length ≤ 65535)
+
+/-- the loop over a sequence of messages `(src, payload)`: the packets that went out.
+`if err = conn.Send(packet[…]); err != nil { logger.Println(err) }`: a packet the kernel refuses is
+lost (and logged), the loop goes on with the next message on the same buffers (F25; before that
+repair the worker returned here and nothing was mirrored any more) -/
+def Worker.run (send : Bytes → Bool) (w : Worker) (max : Int) (dst : Bytes) : List (Bytes × Bytes) → Res (List Bytes)
   | [] => .ok []
   | (src, payload) :: rest => do
     let (w', out) ← w.step max dst src payload
-    let outs ← Worker.run w' max dst rest
-    .ok (out :: outs)
+    let outs ← Worker.run send w' max dst rest
+    .ok (if send out then out :: outs else outs)
 
 /-- a whole worker life: start, then the messages in order -/
-def mirrorSeq (sport : Nat) (max : Int) (dst : Bytes) (port : Nat) (msgs : List (Bytes × Bytes)) : Res (List Bytes) := do
+def mirrorSeq (send : Bytes → Bool) (sport : Nat) (max : Int) (dst : Bytes) (port : Nat)
+    (msgs : List (Bytes × Bytes)) : Res (List Bytes) := do
   let w ← Worker.init sport max dst port
-  w.run max dst msgs
+  w.run send max dst msgs
+
+/-! ## the dispatcher (`mirrorIPFIXDispatcher` / `mirrorSFlowDispatcher`) -/
+
+/-- where the dispatcher puts a datagram -/
+inductive Route where
+  | ch4
+  | ch6
+  /-- no worker serves the datagram's address family: the buffer goes back to the pool -/
+  | drop
+deriving Repr, DecidableEq
+
+/-- the dispatcher's loop body (after the F25 repair): `has4` / `has6` say whether a worker reads `ch4` / `ch6`;
+`switch v4 := msg.raddr.IP.To4() != nil; { case v4 && has4: ch4 <- msg; case !v4 && has6: ch6 <- msg; default: Put }` -/
+def route (has4 has6 : Bool) (src : Bytes) : Route :=
+  let v4 := (to4 src).isSome
+  if v4 && has4 then .ch4 else if !v4 && has6 then .ch6 else .drop
+
+/-- the workers the dispatcher starts: `workers` of them, all for the target's family
+(`if dst.To4() != nil { go mirrorX(dst, port, ch4); has4 = true } else { go mirrorX(dst, port, ch6); has6 = true }`) -/
+def has4Of (workers : Nat) (dst : Bytes) : Bool := decide (0 < workers) && (to4 dst).isSome
+def has6Of (workers : Nat) (dst : Bytes) : Bool := decide (0 < workers) && (to4 dst).isNone
+
+/-- the stream the IPv4 workers read from `ch4` -/
+def toCh4 (has4 has6 : Bool) (msgs : List (Bytes × Bytes)) : List (Bytes × Bytes) :=
+  msgs.filter (fun x => route has4 has6 x.1 = .ch4)
+
+/-- dispatcher and worker together: what leaves towards an IPv4 target for a stream of datagrams from
+any exporters (one worker; with several, each reads a subsequence of the same stream) -/
+def mirrorAll (send : Bytes → Bool) (sport : Nat) (max : Int) (dst : Bytes) (port workers : Nat)
+    (msgs : List (Bytes × Bytes)) : Res (List Bytes) :=
+  if workers = 0 then .ok [] else
+  mirrorSeq send sport max dst port (toCh4 (has4Of workers dst) (has6Of workers dst) msgs)
 
 /-- the first message of a fresh worker: the octets handed to `conn.Send`.
 `sport` is 55117 (IPFIX) or 55118 (sFlow). -/
